@@ -50,6 +50,7 @@ impl StressRunner {
         let wr = arg(toks, "writes", 40);
         let quiet = arg(toks, "quiet", 0) == 1;
         let tick = arg(toks, "tick", 0);
+        let inval = arg(toks, "inval", 0);
         let clock = Arc::new(clock);
         let counters = Arc::new(Counters::default());
         let ticket = Arc::new(AtomicU64::new(1));
@@ -71,7 +72,21 @@ impl StressRunner {
                     }
                     let k = 1 + rng.next() % keys;
                     let r = rng.next() % 100;
+                    if inval > 0 && rng.next() % 100 < inval {
+                        // invalidate_all at a strictly later clock reading than everything written so far
+                        clock.advance(dur_ns(1));
+                        let start = ticket.fetch_add(1, Ordering::SeqCst);
+                        let now0 = clock.now_ns();
+                        cache.invalidate_all();
+                        let now1 = clock.now_ns();
+                        let end = ticket.fetch_add(1, Ordering::SeqCst);
+                        if !quiet {
+                            local.push(format!("op t{} {} A -> - start={} end={} lin=- now={}:{}", t, i, start, end, now0, now1));
+                        }
+                        continue;
+                    }
                     let start = ticket.fetch_add(1, Ordering::SeqCst);
+                    let now0 = clock.now_ns();
                     let (op, res) = if r < wr {
                         let v = 1000 * (t + 1) * 1000 + i; // unique per write
                         cache.insert(TK::new(k, &cn), TV::new(v, &cn));
@@ -89,9 +104,10 @@ impl StressRunner {
                         cache.sync();
                         ("S".to_string(), "-".to_string())
                     };
+                    let now1 = clock.now_ns();
                     let end = ticket.fetch_add(1, Ordering::SeqCst);
                     if !quiet {
-                        local.push(format!("op t{} {} {} -> {} start={} end={} lin=-", t, i, op, res, start, end));
+                        local.push(format!("op t{} {} {} -> {} start={} end={} lin=- now={}:{}", t, i, op, res, start, end, now0, now1));
                     }
                 }
                 records.lock().unwrap().extend(local);
